@@ -301,8 +301,10 @@ class Ctx:
             self.numchecks += 1
             self.numfails.append(NumFail(name, f"reached forbidden point {note}"))
 
-    def eq(self, name, a, b, note='', tol=None):
-        """a == b (scalars, arrays element-wise, abstract vectors by normal form)"""
+    def eq(self, name, a, b, note='', tol=None, approx=False):
+        """a == b (scalars, arrays element-wise, abstract vectors by normal form).
+        approx=True: coefficients come from floating-point data; the difference must vanish as a polynomial in the symbols
+        up to the tolerance (decided by the rational-function normaliser)"""
         if isinstance(a, av.AVec) or isinstance(b, av.AVec):
             if not (isinstance(a, av.AVec) and isinstance(b, av.AVec)):
                 return self.fail(name, f"abstract/concrete mismatch {type(a).__name__} vs {type(b).__name__}")
@@ -315,6 +317,23 @@ class Ctx:
                 else:
                     return self.obls.append(Obl(name + ':shape', self._hyps(), z3.BoolVal(False), None,
                                                 f"shape/type mismatch: {_shape(a)} ({type(a).__name__}) vs {_shape(b)} ({type(b).__name__}) {note}", 'shape'))
+            if not core.is_sym(np.asarray(fa, dtype=object)) and not core.is_sym(np.asarray(fb, dtype=object)):
+                # closed comparison of two concrete values: numeric, within tolerance
+                rt = tol or self.rtol
+                ok = all((x == y) or (abs(float(x) - float(y)) <= self.atol + rt * max(abs(float(x)), abs(float(y)))) or (math.isnan(float(x)) and math.isnan(float(y)))
+                         for x, y in zip(fa, fb))
+                self.obls.append(Obl(name, self._hyps(), z3.BoolVal(bool(ok)), None, note + ' (closed numeric comparison)', 'closed')); return
+            if approx:
+                from . import field
+                worst = 0.0; ok = True; why = ''
+                for x, y in zip(fa, fb):
+                    r, info = field.approx_equal(T(x), T(y), tol or 1e-7)
+                    if r is None: ok = None; why = str(info); break
+                    if not r: ok = False
+                    worst = max(worst, info)
+                if ok is None:
+                    self.obls.append(Obl(name, self._hyps(), z3.And(*[T(x) == T(y) for x, y in zip(fa, fb)]), None, note + f' (approx fallback: {why})', 'eq')); return
+                self.obls.append(Obl(name, self._hyps(), z3.BoolVal(bool(ok)), None, note + f' (polynomial identity up to coefficient tolerance; max relative coefficient deviation {worst:.2e})', 'approx')); return
             conj = [T(x) == T(y) for x, y in zip(fa, fb)]
             if len(conj) <= 4:
                 g = z3.And(*conj) if len(conj) != 1 else conj[0]
